@@ -252,6 +252,46 @@ def swizzle_items(full):
     return out
 
 
+# -- (5) an element selection with a constant index placed INSIDE another expression ---------------------------
+
+ENTITIES = [("array", "int [ %d ] t", "t [ %s ]", (1, 2, 3, 5)), ("array2d-last", "int [ 2 ] [ %d ] t", "t [ 1 ] [ %s ]", (2, 3)),
+            ("int-vector", "int%d t", "t [ %s ]", (2, 3, 4)), ("array-of-vectors", "int2 [ %d ] t", "t [ %s ] . x", (2, 3))]
+EMBEDDINGS = [
+    ("index-of-array", "int r = o [ %s ] ;"), ("index-arithmetic", "int r = o [ p + %s ] ;"),
+    ("index-of-vector", "float r = q [ %s ] ;"), ("index-of-matrix-row", "float r = m [ %s ] [ 0 ] ;"),
+    ("index-of-matrix-column", "float r = m [ 1 ] [ %s ] ;"), ("index-in-index", "int r = o [ o [ %s ] ] ;"),
+    ("call-argument-in-index", "int r = o [ gi ( %s ) ] ;"), ("index-of-written-element", "o [ %s ] = 1 ;"),
+    ("call-argument", "int r = gi ( %s ) ;"), ("operand", "int r = 1 + %s * 2 ;"), ("condition", "if ( %s > 0 ) { p = 1 ; }"),
+    ("loop-condition", "while ( %s > p ) { p = p + 1 ; }"), ("return-value", None), ("swizzle-write-value", "q . x = %s ;"),
+]
+
+
+def nested_items():
+    out = []
+    for ent, decl, acc, sizes in ENTITIES:
+        for n in sizes:
+            for c in range(-2, n + 2):
+                for emb, _ in EMBEDDINGS:
+                    out.append((ent, n, c, emb))
+    return out
+
+
+def nested_case(ctx, case):
+    ent, n, c, emb = case
+    _, decl, acc, _ = [e for e in ENTITIES if e[0] == ent][0]
+    access = acc % str(c)
+    tmpl = dict(EMBEDDINGS)[emb]
+    pre = "function gi ( int z ) -> int { return z ; }\n"
+    body = [(decl % n) + " ;", "int [ 9 ] o ;", "float4 q ;", "float3x3 m ;"]
+    if tmpl is None:
+        src = pre + "export function f ( int p ) -> int {\n %s\n return %s ;\n}\n" % ("\n ".join(body), access)
+    else:
+        src = pre + "export function f ( int p ) -> int {\n %s\n %s\n return 0 ;\n}\n" % ("\n ".join(body), tmpl % access)
+    ctx.label("nested:" + emb)
+    judge(ctx, src, 0 <= c < n, "nested|%s|%s|%s" % (ent, emb, "below" if c < 0 else "above" if c >= n else "inside"),
+          "constant index %d (size %d) in `%s`, used as %s" % (c, n, access, emb), case, c in (-1, 0, n - 1, n))
+
+
 def hash_mod(m):
     return sum(ord(c) for c in m) % 5
 
@@ -262,6 +302,8 @@ def run(R):
     R.enum("vectors-matrices", lambda: vecmat_items(full), vecmat_case, exhaustive=True)
     R.enum("index-types", lambda: [(e, t, rw) for e in INDEX_EXPRS for t in TARGETS for rw in ("read", "write")],
            indextype_case, exhaustive=True)
+    R.enum("nested-selections", nested_items, nested_case, exhaustive=True)
+    R.require("nested:index-in-index")
     R.enum("swizzles", lambda: swizzle_items(full), swizzle_case, exhaustive=full, chunks=64)
     for l in ("expected-accept", "expected-reject", "vector:read", "vector:write", "matrix:row", "matrix:column",
               "swizzle:valid:len4", "swizzle:mixed-sets:len2", "swizzle:component-out-of-range:len1",
